@@ -2,7 +2,9 @@
 import copy
 
 from . import budget
-from .repo import tad, SNAP, NOSOL
+from .repo import tad, SNAP, NOSOL, debug_logging
+
+DEBUG_LOG = False      # set per shard by the sweep: every solve of the shard runs with the root logger at DEBUG (the tool's -l d)
 
 
 class Outcome:
@@ -26,6 +28,9 @@ def solve(game, prune, cpu_s=budget.DEFAULT_CPU_S, max_lines=budget.DEFAULT_LINE
     def fn():
         g = copy.deepcopy(game) if want_copy else game
         SNAP.clear()
+        if DEBUG_LOG:
+            with debug_logging():
+                return tad.StochasticGame(prune_states=prune, **g).solve()
         return tad.StochasticGame(prune_states=prune, **g).solve()
 
     st, val = budget.run_budgeted(fn, cpu_s, max_lines, confirm)
@@ -49,6 +54,12 @@ def solve_reach_seam(game, prune, threshold=None, cpu_s=budget.DEFAULT_CPU_S, ma
     other than the one solve() hard-wires.  Returns Outcome whose result is (probabilities, strategies)."""
 
     def fn():
+        if DEBUG_LOG:
+            with debug_logging():
+                return seam()
+        return seam()
+
+    def seam():
         g = copy.deepcopy(game)
         sg = tad.StochasticGame(prune_states=prune, **g)
         sg.check_game()
